@@ -238,3 +238,24 @@ func H_dbg2() {
 	}
 	symx.Assert(len(src) < 0, "dump")
 }
+
+// template mode (files that start with HTML / `#!`, PHP blocks between <?php and ?>): the window sits
+// in the HTML before a block, inside a block, directly after a closing tag, and between two blocks
+var templateSandwiches = [][2]string{
+	{"<p>", "</p>\n<?php $a = 1; ?>\n<b><?php $b = 2; ?>\n"},
+	{"<?php $a = 1; ", " ?>\n<p>x</p>\n<?php $b = 2; ?>\n<i>"},
+	{"<?php $a = 1; ?>", "<p>x</p>\n<?php $b = 2; ?>\n<i>"},
+	{"<?php $a = 1; ?>\n", "\n<?php $b = 2; ?>\n<?php $c = 3;"},
+	{"<?php $a = \"", "\"; ?>\nx\n<?php $c = 3; ?>\n"},
+	{"<?php /*", "*/ $a = 1; ?>\r\n<p>\r\n<?php $b = 2; ?>\r\n<i>"},
+}
+
+// H_lex_template_spans: span laws (C18) on the token list of TokenizeTemplate.
+func H_lex_template_spans() {
+	n := symx.Param("n", 1)
+	k := symx.Choose("ctx", len(templateSandwiches))
+	src := templateSandwiches[k][0] + symx.String("w", n) + templateSandwiches[k][1]
+	toks := lx.TokenizeTemplate(src)
+	symx.Reach("lexed")
+	checkSpans(toks, src)
+}
